@@ -12,7 +12,7 @@
    correspondence harness (real scanner on the real String() vs [tokens_of] of the real tree).
    Property theorems only. *)
 (* source tie by translation: the lemmas of these files are obligations of this property *)
-From Soy Require Import Proofs.SourceTieExpr Proofs.SourceTieQuote Proofs.SourceTieAstPrint.
+From Soy Require Import Proofs.SourceTieExpr Proofs.SourceTieQuote Proofs.SourceTieAstPrint Proofs.SourceTieUnquote.
 From Soy Require Import Model.Bytes Model.Num Model.Values Model.Ast Model.Token Model.NumLit Model.Quote Model.ExprParser
   Model.AstPrint Generated.Tables Spec.ExprSyntax Proofs.ExprParserRules Proofs.LiteralProofs Proofs.ExprParserProofs Proofs.PlaceholderTextProofs.
 From Soy Require Import Model.Outcome Model.MsgId Proofs.MsgIdProofs.
